@@ -489,8 +489,12 @@ fn check_state(live: &Live, model: &DModel, early: &[Paragraph], early_map: &[Op
             if keys != want_keys {
                 out.push(viol("accessors-agree", format!("text {:?}: paragraph {} keys() {:?}, model {:?}", text, i, keys, want_keys)));
             }
+            // present keys, an absent key, and the present keys in another letter case (field lookup is exact)
+            let cased: Vec<String> = m.iter().flat_map(|(k, _)| [k.to_lowercase(), k.to_uppercase()]).collect();
             let mut probe: Vec<&str> = m.iter().map(|(k, _)| k.as_str()).collect();
             probe.push("Zz-absent");
+            probe.extend(cased.iter().map(|k| k.as_str()));
+            probe.sort();
             probe.dedup();
             for k in probe {
                 let first = m.iter().find(|(kk, _)| kk == k).map(|(_, v)| v.clone());
